@@ -15,7 +15,7 @@ PLANS = {
             'thorough': [E('C05', 'plain', 100000, 3000), E('C05', 'asan', 10000, 1500, seed_offset=500000)]},
     'C10': {'quick': [E('C10', 'plain', 2500, 110)],
             'thorough': [E('C10', 'plain', 200000, 3600), E('C10', 'asan', 5000, 900, seed_offset=500000)]},
-    'C03': {'quick': [E('C03', 'plain', 1400, 100), E('C03', 'asan', 120, 45, seed_offset=500000, run_wall_s=120)],
+    'C03': {'quick': [E('C03', 'plain', 1200, 80), E('C03', 'asan', 100, 40, seed_offset=500000, run_wall_s=120)],
             'thorough': [E('C03', 'plain', 60000, 3600), E('C03', 'asan', 3000, 1200, seed_offset=500000)]},
     'C17': {'quick': [E('C17', 'asan', 700, 90, run_wall_s=150), E('C17', 'plain', 1500, 40, seed_offset=300000), E('C17PGN', 'asan', 3000, 30, seed_offset=500000)],
             'thorough': [E('C17', 'asan', 50000, 3600, run_wall_s=300), E('C17', 'plain', 100000, 1800, seed_offset=300000), E('C17PGN', 'asan', 100000, 1200, seed_offset=500000, tier=1)]},
@@ -26,9 +26,9 @@ PLANS = {
     'C19': {'quick': [E('C19', 'plain', 3000, 40), E('C19', 'asan', 400, 40, seed_offset=500000)],
             'thorough': [E('C19', 'plain', 100000, 2400, tier=1), E('C19', 'asan', 10000, 1800, seed_offset=500000, tier=1)]},
     # C07: monitor inside searches (plain + asan) and the same seeds in every SIMD build variant (hashes must agree)
-    'C07': {'quick': [E('C07', 'plain', 480, 60, compare_group='simd'), E('C07', 'plain-ssse3', 480, 60, compare_group='simd'),
-                      E('C07', 'plain-avx2', 480, 60, compare_group='simd'), E('C07', 'plain-avx512', 480, 60, compare_group='simd'),
-                      E('C07', 'asan', 100, 40, seed_offset=500000, run_wall_s=120)],
+    'C07': {'quick': [E('C07', 'plain', 300, 35, compare_group='simd'), E('C07', 'plain-ssse3', 300, 35, compare_group='simd'),
+                      E('C07', 'plain-avx2', 300, 35, compare_group='simd'), E('C07', 'plain-avx512', 300, 35, compare_group='simd'),
+                      E('C07', 'asan', 80, 30, seed_offset=500000, run_wall_s=120)],
             'thorough': [E('C07', 'plain', 20000, 2400, tier=1, compare_group='simd'), E('C07', 'plain-ssse3', 20000, 2400, tier=1, compare_group='simd'),
                          E('C07', 'plain-avx2', 20000, 2400, tier=1, compare_group='simd'), E('C07', 'plain-avx512', 20000, 2400, tier=1, compare_group='simd'),
                          E('C07', 'asan', 3000, 1200, seed_offset=500000, run_wall_s=300, tier=1)]},
